@@ -5,18 +5,21 @@ From TV Require Import Base.Prelude Base.C11_Lib Gen.C11_RsaKex Model.C11_Server
 Import ListNotations.
 Open Scope Z_scope.
 
+(* The script is written against the meaning, not the shape, of the generated text: it does the case analysis
+   (decrypt result None / empty / other; length; the two version comparisons) and lets computation close each case,
+   so behaviour-preserving rewrites of processClientKeyExchange (early returns, merged conditions, renamed locals)
+   do not break it. *)
 Lemma kex_eq_spec_all (dec : list Z -> option (list Z)) (rnd : Z -> list Z) cv sv epms :
   processClientKeyExchange dec rnd cv sv epms = Ok (Some (kex_spec cv sv (dec epms) (rnd 48))).
 Proof.
   unfold processClientKeyExchange, kex_spec, wellformed_premaster.
-  destruct (dec epms) as [pm|]; [|reflexivity].
-  destruct pm as [|x pm]; [reflexivity|].
-  cbn [opt_falsy opt_get bind].
-  destruct (zlen (x :: pm) =? 48) eqn:E; cbn [negb andb]; [|reflexivity].
+  destruct (dec epms) as [[|x pm]|]; cbn [opt_falsy opt_get bind negb andb orb]; try reflexivity.
+  destruct (zlen (x :: pm) =? 48) eqn:E; cbn [opt_falsy opt_get negb andb orb bind]; try reflexivity.
   assert (H48 : zlen (x :: pm) = 48) by lia.
-  rewrite !py_index_ok by lia. cbn [bind]. fold (version_of (x :: pm)).
-  destruct (pairZ_eqb (version_of (x :: pm)) cv); cbn [negb orb bind]; [reflexivity|].
-  destruct (pairZ_eqb (version_of (x :: pm)) sv); reflexivity.
+  repeat (rewrite py_index_ok by lia; cbn [opt_get bind]).
+  fold (version_of (x :: pm)).
+  destruct (pairZ_eqb (version_of (x :: pm)) cv); destruct (pairZ_eqb (version_of (x :: pm)) sv);
+    cbn [negb andb orb bind]; reflexivity.
 Qed.
 
 Lemma kex_spec_48 cv sv r random48 : zlen random48 = 48 -> zlen (kex_spec cv sv r random48) = 48.
